@@ -67,7 +67,7 @@ var kinds = []kind{
 	{Name: "fs-dir", Cmd: agent.COMMAND_FS, Final: true, Build: one(func(e *demonref.Enc, text string, n uint32) {
 		// Dir: AddInt32(FileExplorer) AddInt32(ListOnly) AddWString(StartPath) AddInt32(Success) then per directory
 		e.Int32(agent.DEMON_COMMAND_FS_DIR).Bool(false).Bool(false).WString("C:\\" + text + "\\*").Bool(true)
-		e.WString("C:\\"+text+"\\").Int32(1).Int32(0).Int64(uint64(n))
+		e.WString("C:\\" + text + "\\").Int32(1).Int32(0).Int64(uint64(n))
 		e.WString("f.txt").Bool(false).Int64(uint64(n)).Int32(1).Int32(2).Int32(2024).Int32(30).Int32(12)
 	})},
 	{Name: "fs-dir-fail", Cmd: agent.COMMAND_FS, Final: true, Build: one(func(e *demonref.Enc, text string, _ uint32) {
@@ -110,7 +110,7 @@ var kinds = []kind{
 	// CommandProcList: one package
 	{Name: "proc-list", Cmd: agent.COMMAND_PROC_LIST, Final: true, Build: one(func(e *demonref.Enc, text string, n uint32) {
 		e.Int32(n % 2)
-		e.WString(text+".exe").Int32(n%9000 + 4).Int32(0).Int32(4).Int32(1).Int32(7).WString("DOM\\user")
+		e.WString(text + ".exe").Int32(n%9000 + 4).Int32(0).Int32(4).Int32(1).Int32(7).WString("DOM\\user")
 	})},
 	// streaming output
 	{Name: "output", Cmd: agent.COMMAND_OUTPUT, Build: one(func(e *demonref.Enc, text string, _ uint32) { e.String("out:" + text) })},
